@@ -23,6 +23,7 @@ MUTANTS += [
     ('transformations applied unsorted', [('mininec.main', "for t in sorted (geo_transforms, key = lambda x: x [0]):", "for t in geo_transforms:")], ['ORDER.main']),
     ('transformations sorted by the tag', [('mininec.main', "for t in sorted (geo_transforms, key = lambda x: x [0]):", "for t in sorted (geo_transforms, key = lambda x: x [3] or 0):")], ['ORDER.main']),
     ('rotation assembled in a loop on one scratch matrix', [('mininec.Rotation_Matrix.__init__', "        self.m = rot_z @ rot_y @ rot_x", "        rot = np.eye (3)\n        self.m = np.eye (3)\n        for k, r in enumerate ((rot_x, rot_y, rot_z)):\n            i = (k + 1) % 3\n            rot [i] = r [i]\n            self.m = rot @ self.m")], ['loop-scratch']),
+    ('arc angles from a float-stepped range', [('mininec.Arc.__init__', "        for i in range (n_segments):\n            a = a1 + (a2 - a1) / n_segments * i\n", "        for a in np.arange (a1, a2, (a2 - a1) / n_segments):\n")], ['count-based']),
 ]
 REFACTORS = [
     ('equal segments loop variable renamed', [(W + 'compute_equal_segments', "        for i in range (self.n_segments):\n            s1 = seg + (i + 1) * dirvec * seg_len", "        for k in range (self.n_segments):\n            s1 = seg + (k + 1) * dirvec * seg_len")]),
